@@ -17,6 +17,15 @@ MapSeq(ixs, F(_)) == [j \in 1..Len(ixs) |-> F(ixs[j])]
 (* ---- value domains: per-field boundary sets *)
 Sids     == <<None, Some(<<7>>), Some(Fill(3, 32))>>
 ExtOpts  == <<None, Some(<<>>), Some(<<0, 23, 0, 0>>), Some(Fill(6, 300))>>
+(* hellos carrying the RFC 8446 magic randoms and extension blocks whose decoding has corner cases *)
+MagicRandoms == <<HrrRandom, Fill(1, 24) \o Downgrade12, Fill(2, 24) \o Downgrade11>>
+CornerExts == <<Some(<<0, 43, 0, 1, 0>>), Some(<<0, 43, 0, 2, 3, 4>>), Some(<<0, 35, 0, 3, 1, 2, 3>>), Some(<<0, 43, 0, 3, 2, 3, 4, 0, 51, 0, 2, 0, 29>>)>>
+MagicVals == Concat([r \in 1..3 |-> Concat([x \in 1..4 |-> <<
+   [t |-> "ServerHello", ver |-> <<769, 770, 771>>[r], random |-> MagicRandoms[r], sid |-> Sids[(x % 3) + 1], cipher |-> 4865, comp |-> 0, ext |-> CornerExts[x]],
+   [t |-> "ServerHello", ver |-> 771, random |-> MagicRandoms[r], sid |-> None, cipher |-> 4866, comp |-> 0, ext |-> ExtOpts[x]],
+   [t |-> "ClientHello", ver |-> 771, random |-> MagicRandoms[r], sid |-> Sids[(x % 3) + 1], ciphers |-> <<4865>>, comp |-> <<0>>, ext |-> CornerExts[x]],
+   [t |-> "ServerHelloV13Draft18", ver |-> 32530, random |-> MagicRandoms[r], cipher |-> 4865, ext |-> CornerExts[x]] >>])])
+LongChain(n) == [t |-> "Certificate", chain |-> [j \in 1..n |-> IF j % 97 = 0 THEN <<48, j % 256>> ELSE <<>>]]
 CiphOpts == <<<<>>, <<47>>, <<1, 2, 65535>>>>
 CompOpts == <<<<>>, <<0>>, Fill(1, 255)>>
 ChVers   == <<768, 771, 772, 65277>>
@@ -71,6 +80,7 @@ ValsDef ==
   \o MapSeq(OpIdx, MkOpaque) \o [k \in 1..5 |-> MkSke(k)] \o [k \in 1..5 |-> MkCke(k)]
   \o MapSeq(CrIdx, MkCr) \o MapSeq(CsIdx, MkCs) \o MapSeq(NpIdx, MkNp) \o [k \in 1..3 |-> MkKu(k)]
   \o << [t |-> "HelloRequest"], [t |-> "EndOfEarlyData"] >>
+  \o MagicVals \o << LongChain(1024), LongChain(1025), LongChain(5000) >>
 (* TLC does not cache constants whose definition uses parameterised function constructors: *)
 (* park them in TLC registers (2 = values, 3 = their encodings, 1 = cases)                 *)
 ASSUME TLCSet(2, ValsDef)
